@@ -365,8 +365,36 @@ class Node:
             self.proto.data_store.add_peer_to_blob(p2, constants.generate_id(i + 200))
             self.known.append(p)
         self.proto.data_store.completed_blobs.add(constants.generate_id(300).hex())
+        self.task_started = False
+
+    def rate_good(self, sender):
+        """the sender's address has just replied to one of our own requests and has no failure on record:
+        peer_manager.peer_is_good(...) is True for every contact at that address"""
+        self.pm._rpc_failures.cache.pop(tuple(sender), None)
+        self.pm.report_last_replied(sender[0], sender[1])
+
+    def settle(self):
+        """let the node's own routing-table maintenance task (0.1 s cadence, virtual clock) apply the queued
+        additions / removals; returns False if the queue did not drain"""
+        if not (self.proto._to_add or self.proto._to_remove):
+            return True
+        if not self.task_started:
+            self.proto.start()
+            self.task_started = True
+        for _ in range(8):
+            self.clock[0] += 0.25
+            self.loop.run_until_complete(asyncio.sleep(0))
+            if not (self.proto._to_add or self.proto._to_remove):
+                return True
+        return False
 
     def close(self):
+        if self.task_started:
+            self.proto.maintaing_routing_task.cancel()
+            try:
+                self.loop.run_until_complete(self.proto.maintaing_routing_task)
+            except BaseException:  # noqa
+                pass
         self.loop.close()
 
     def snapshot(self):
@@ -375,19 +403,23 @@ class Node:
         pk = lambda p: (p.node_id.hex() if p.node_id else None, p.address, p.udp_port)  # noqa: E731
         return {
             'routing': [[b.range_min, b.range_max, [pk(p) for p in b.peers]] for b in rt.buckets],
-            'routing_pending': [sorted(map(pk, self.proto._to_add)), sorted(map(pk, self.proto._to_remove))],
+            'routing_pending': [sorted(map(pk, self.proto._to_add)), sorted(map(pk, self.proto._to_remove)),
+                                [(pk(p), t) for p, t in self.proto.ping_queue._pending_contacts.items()]],
             'store': {k.hex(): [(pk(p), p.tcp_port, ts) for p, ts in v] for k, v in ds._data_store.items()},
             'completed': sorted(ds.completed_blobs),
             'failures': {f'{a}:{p}': list(v) for (a, p), v in self.pm._rpc_failures.items()},
             'other': [str(dict(self.pm._last_replied.cache)), str(dict(self.pm._last_sent.cache)), str(dict(self.pm._last_requested.cache)),
                       str(dict(self.pm._node_id_mapping.cache)), len(self.pm._node_tokens.cache),
-                      sorted(self.proto.sent_messages), [(pk(p), t) for p, t in self.proto.ping_queue._pending_contacts.items()]],
+                      sorted(self.proto.sent_messages)],
             'sent': len(self.transport.sent),
         }
 
     def feed(self, data, sender):
         """-> observation of one datagram_received call"""
-        self.clock[0] += 1
+        self.clock[0] = int(self.clock[0]) + 1
+        now = self.clock[0]
+        if tuple(sender) in GOOD_SENDERS:
+            self.rate_good(sender)
         before = self.snapshot()
         escaped = None
         old = signal.signal(signal.SIGALRM, _on_alarm)
@@ -403,15 +435,30 @@ class Node:
             signal.alarm(0)
             signal.signal(signal.SIGALRM, old)
         after = self.snapshot()
+        # the routing table itself is only mutated by the maintenance task: run it, then look at the table
+        queued = after['routing_pending'] != before['routing_pending']
+        drained = self.settle() if escaped is None else True
+        table_after = self.snapshot()['routing']
+        replies = []
+        for d, _a in self.transport.sent[before['sent']:]:
+            try:
+                t = ref_bdecode(d).get(0)
+            except Exception:  # noqa
+                t = None
+            replies.append({1: 'response', 2: 'error', 0: 'request'}.get(t, 'other'))
         key = f'{sender[0]}:{sender[1]}'
         prev = before['failures'].get(key, [None, None])
         expect_fail = dict(before['failures'])
-        expect_fail[key] = [prev[1], self.clock[0]]
+        expect_fail[key] = [prev[1], now]
         return {
             'escaped': escaped,
             'failure_recorded': after['failures'] == expect_fail,
             'failures_unchanged': after['failures'] == before['failures'],
-            'routing_unchanged': after['routing'] == before['routing'] and after['routing_pending'] == before['routing_pending'],
+            'routing_unchanged': table_after == before['routing'] and not queued,
+            'routing_detail': None if (table_after == before['routing'] and not queued) else
+            {'table_before': [b[2] for b in before['routing']], 'table_after': [b[2] for b in table_after],
+             'pending_before': before['routing_pending'], 'pending_after': after['routing_pending'], 'drained': drained},
+            'replies': replies,
             'store_unchanged': after['store'] == before['store'] and after['completed'] == before['completed'],
             'other_unchanged': after['other'] == before['other'],
             'sent': after['sent'] - before['sent'],
@@ -612,7 +659,7 @@ def gen_near_valid(rng):
     else:
         f = {0: 2, 1: rpc, 2: node, 3: b"<class 'ValueError'>", 4: gen_text(rng).encode()}
     for _ in range(rng.choice([1, 1, 2])):
-        e = rng.randrange(14)
+        e = rng.randrange(15)
         if e == 0:
             f[1] = rbytes(rng, rng.choice([0, 1, 19, 21, 40]))
         elif e == 1:
@@ -643,6 +690,9 @@ def gen_near_valid(rng):
             f[1] = rng.choice([0, [rpc], {0: rpc}, list(rpc)])
         elif e == 12:
             f[2] = rng.choice([0, [node], list(node)])
+        elif e in (13, 14) and f.get(3) in (b'findNode', b'findValue') and isinstance(f.get(4), list) and f[4]:
+            f[4][0] = rng.choice([[0] * 48, list(range(200, 248)), [256] + [0] * 47, [-1] + [0] * 47, [0] * 47, b'k' * 47, b'k' * 49, b'', 5,
+                                  [b'a'] * 48, [[0]] * 48])
     items = list(f.items())
     if rng.random() < 0.15:
         rng.shuffle(items)
@@ -741,7 +791,15 @@ def gen_random(rng, maxlen):
 
 
 SENDERS = [('5.6.7.8', 4445), ('9.9.0.9', 5000), ('9.9.1.9', 5001), ('127.0.0.1', 4444), ('10.0.0.1', 80), ('8.8.8.8', 53),
-           ('1.2.3.4', 4444), ('200.1.1.1', 65535)]
+           ('1.2.3.4', 4444), ('200.1.1.1', 65535), ('7.7.7.7', 7000), ('9.9.2.9', 5002)]
+# sender classes: 9.9.0.9 / 9.9.1.9 are contacts IN the routing table that have just answered one of our requests
+# (rated good), 7.7.7.7 is rated good but NOT in the table, 9.9.2.9 is in the table but not rated, the others are
+# unknown (5.6.7.8, 200.1.1.1, our own address) or unusable as contacts (loopback, private, port < 1024)
+GOOD_SENDERS = {('9.9.0.9', 5000), ('9.9.1.9', 5001), ('7.7.7.7', 7000)}
+# addresses make_kademlia_peer accepts (public IPv4, udp port >= 1024)
+USABLE_SENDERS = {('5.6.7.8', 4445), ('9.9.0.9', 5000), ('9.9.1.9', 5001), ('1.2.3.4', 4444), ('200.1.1.1', 65535), ('7.7.7.7', 7000),
+                  ('9.9.2.9', 5002)}
+KNOWN_IDS = {constants.generate_id(i + 100).hex() for i in range(5)}
 
 
 # ------------------------------------------------------------------------------------------------
@@ -761,7 +819,6 @@ class Ctx:
 
 
 def violation_signature(data, obs, impl):
-    """identify the two escapes known at build time by their cause, anything else by the datagram itself"""
     return {'datagram': data.hex() if len(data) <= 400 else data[:400].hex() + '...', 'escaped': obs['escaped']}
 
 
@@ -776,12 +833,14 @@ def check_datagram(ctx, data, sender, kind, expect=None):
         case['expect'] = expect
     impl = impl_decode(data)
     obs = ctx.node.feed(data, tuple(sender))
-    mod = model.call('decode', fuel_lo=FUEL_LO, fuel_hi=FUEL_HI, data=data.hex())
-    grey = vlib.canon(mod['lo']) != vlib.canon({k: v for k, v in mod['hi'].items() if k != 'effect'})
+    mod = model.call('decode', fuel_lo=FUEL_LO, fuel_hi=FUEL_HI, data=data.hex(), own=OWN_ID.hex())
+    grey = vlib.canon({k: v for k, v in mod['lo'].items() if k != 'request_valid'}) != vlib.canon({k: v for k, v in mod['hi'].items() if k not in ('effect', 'request_valid')})
     m = mod['hi']
     run.case(case, nontrivial=len(data) > 0, sample=len(data) < 300)
     outcome = ('accept:' + impl['msg']['cls']) if 'msg' in impl else ('drop:' + impl['err'])
     run.count(kind + ' ' + outcome)
+    if tuple(sender) in GOOD_SENDERS and 'msg' in impl and impl['msg']['cls'] == 'request':
+        run.count('request from a good contact: ' + ('valid' if request_is_valid(impl['msg']) else 'INVALID') + (' (in table)' if sender[0].startswith('9.9') else ' (not in table)'))
     run.count('len<=%d' % next(b for b in (0, 16, 128, 1400, 8192, 65536, 1 << 30) if len(data) <= b))
 
     # ---- monitor: the property's statement on the implementation's behaviour --------------------
@@ -790,8 +849,15 @@ def check_datagram(ctx, data, sender, kind, expect=None):
         bad = 'datagram_received did not return (10 s alarm; 1 s after the third hang of a run)'
     elif obs['escaped']:
         bad = f"{obs['escaped']} escaped KademliaProtocol.datagram_received"
-    elif not obs['routing_unchanged']:
-        bad = 'routing table (or its pending additions/removals) changed synchronously in datagram_received'
+    elif not obs['routing_unchanged'] and not ('msg' in impl and request_is_valid(impl['msg']) and obs['replies'] == ['response']):
+        what = ('undecodable datagram' if 'err' in impl else
+                'a %s datagram' % impl['msg']['cls'] if impl['msg']['cls'] != 'request' else
+                'a request that is not a valid protocol request (method %s) and was answered with %s'
+                % (bytes.fromhex(impl['msg']['method'][1])[:20] if impl['msg']['method'][0] == 'b' else impl['msg']['method'][0],
+                   obs['replies'] or 'nothing'))
+        bad = (f'{what} changed the routing table, its queued additions/removals or the ping queue '
+               f'(sender {"rated good" if tuple(sender) in GOOD_SENDERS else "not rated"}; routing task run before '
+               f'comparing): {json.dumps(obs["routing_detail"], default=str)[:900]}')
     elif 'err' in impl:
         # not decodable as a protocol message: dropped, exactly one failure for the sender, nothing else
         if not obs['failure_recorded']:
@@ -802,9 +868,9 @@ def check_datagram(ctx, data, sender, kind, expect=None):
             bad = 'undecodable datagram changed other node state or caused a datagram to be sent'
     else:
         msg = impl['msg']
-        is_store = msg['cls'] == 'request' and msg['method'] == ['b', b'store'.hex()]
+        is_store = msg['cls'] == 'request' and msg['method'] == ['b', b'store'.hex()] and request_is_valid(msg)
         if not obs['store_unchanged'] and not is_store:
-            bad = f"a {msg['cls']} datagram that is not a store request changed the data store"
+            bad = f"a {msg['cls']} datagram that is not a valid store request changed the data store"
     ref = ref_read_message(data)
     if not bad and ref is not None:
         # a well-formed message according to the independent strict reader must be read identically
@@ -818,21 +884,56 @@ def check_datagram(ctx, data, sender, kind, expect=None):
         bad = 'corpus datagram that must be dropped was accepted as ' + impl['msg']['cls']
     if bad:
         run.violation(case, bad, signature=violation_signature(data, obs, impl))
+        ctx.fed = 10 ** 9
         return
+    if not obs['routing_unchanged']:
+        run.count('routing table / queue changed by a valid request')
+        ctx.fed = 10 ** 9            # next case starts from a fresh node
     # ---- correspondence ---------------------------------------------------------------------------
     if grey:
         run.count('grey-zone (outcome depends on the recursion limit; class not compared)')
         return
-    run.compare('C17.decode_datagram', case, impl, {k: m[k] for k in m if k != 'effect'})
+    run.compare('C17.decode_datagram', case, impl, {k: m[k] for k in m if k not in ('effect', 'request_valid')})
     impl_eff = {'failures': 1 if obs['failure_recorded'] else 0 if obs['failures_unchanged'] else -1,
                 'dropped': 'err' in impl}
     # (an accepted request may legitimately record a failure when the node answers with an error datagram,
     #  that part of the handler is abstract in the model: compare the failure count only for drops)
+    if 'msg' in impl and impl['msg']['cls'] == 'request':
+        # handle_request_datagram: no contact -> ignored; valid -> exactly one response; otherwise exactly one error
+        # datagram and one failure.  The contact is the table entry with that node id, else the sender's address.
+        in_table = impl['msg']['node_id'] in KNOWN_IDS
+        usable = in_table or tuple(sender) in USABLE_SENDERS
+        want = [] if not usable else ['response'] if m['request_valid'] else ['error']
+        run.count('request ' + ('ignored (no usable contact)' if not usable else 'served' if m['request_valid'] else 'answered with an error'))
+        run.compare('C17.handle_request.reply', case, obs['replies'], want)
     if 'err' in impl:
         run.compare('C17.datagram_received.effect', case, impl_eff,
                     {'failures': m['effect']['failures'], 'dropped': not m['effect']['processed']})
     else:
         run.compare('C17.datagram_received.effect', case, impl_eff['dropped'], not m['effect']['processed'])
+
+
+def request_is_valid(msg):
+    """the protocol's own rules for a request, applied to the fields decode_datagram returned (independent of
+    protocol.py): a known method from another node, ping anything; store: five positional arguments, a 48-byte
+    blob hash, an integer tcp port 1..65534; findNode / findValue: a 48-byte key (findValue: an integer page)"""
+    if msg['cls'] != 'request' or msg['node_id'] == OWN_ID.hex() or msg['args'][0] != 'l' or msg['method'][0] != 'b':
+        return False
+    method = bytes.fromhex(msg['method'][1])
+    args = unjv(msg['args'])
+    if not args or not isinstance(args[-1], dict):
+        return False
+    pos, kw = args[:-1], args[-1]
+    if method == b'ping':
+        return True
+    if method == b'store':
+        return (len(pos) >= 5 and isinstance(pos[0], bytes) and len(pos[0]) == 48
+                and isinstance(pos[2], int) and 0 < pos[2] < 65535)
+    if method in (b'findNode', b'findValue'):
+        if not (pos and isinstance(pos[0], bytes) and len(pos[0]) == 48):
+            return False
+        return method == b'findNode' or isinstance(kw.get(b'p', 0), int)
+    return False
 
 
 def canon_msg(m):
@@ -964,6 +1065,16 @@ def check_compact(ctx, node_id, address, port):
     mod = model.call('make_compact_address', node_id=node_id.hex(), address=address.encode().hex(), port=port)
     run.case(case, nontrivial=True, sample=False)
     run.count('compact make ' + ('ok' if 'ok' in impl else impl['err']))
+    # independent codec: 4 plain decimal octets, 48-byte id, port 1..65535 <=> 4 + 2 + 48 bytes
+    plain = re.fullmatch(r'(\d{1,3})\.(\d{1,3})\.(\d{1,3})\.(\d{1,3})', address, re.ASCII)
+    plain = plain is not None and all(int(x) <= 255 for x in plain.groups())
+    if plain and len(node_id) == 48:
+        if 1 <= port <= 65535 and 'ok' not in impl:
+            run.violation(case, f'make_compact_address refused the valid address {address}:{port} ({impl["err"]})', signature=case)
+            return
+        if not 1 <= port <= 65535 and 'ok' in impl:
+            run.violation(case, f'make_compact_address accepted port {port}', signature=case)
+            return
     if 'ok' in impl:
         # monitor: round trip on the implementation, and layout against an independent computation
         ca = bytes.fromhex(impl['ok'])
@@ -992,6 +1103,19 @@ def check_decompact(ctx, ca):
         mod = {'ok': [mod['ok'][0], mod['ok'][1], str(mod['ok'][2])]}
     run.case(case, nontrivial=True, sample=False)
     run.count('compact decode ' + ('ok' if 'ok' in impl else impl['err']))
+    if len(ca) == 54:
+        want_port = int.from_bytes(ca[4:6], 'big')
+        want = [ca[6:].hex(), ('%d.%d.%d.%d' % tuple(ca[:4])).encode().hex(), str(want_port)]
+        if want_port != 0 and impl != {'ok': want}:
+            run.violation(case, f'decode_compact_address of a 54-byte address with port {want_port} gave {impl}, expected '
+                                f'{"%d.%d.%d.%d" % tuple(ca[:4])}:{want_port}', signature=case)
+            return
+        if want_port == 0 and 'ok' in impl:
+            run.violation(case, 'decode_compact_address accepted port 0', signature=case)
+            return
+    elif 'ok' in impl:
+        run.violation(case, f'decode_compact_address accepted {len(ca)} bytes', signature=case)
+        return
     if 'ok' in impl:
         n, a, p = decode_compact_address(ca)
         try:
@@ -1165,6 +1289,11 @@ def main(run):
                      '<= 4 (thorough: 5) over the alphabet i l d e : 0 1 - a')
     lap('exhaustive small scopes')
     # -- compact addresses -------------------------------------------------------------------------
+    for port in (1, 2, 255, 256, 1023, 1024, 3333, 32767, 32768, 65279, 65280, 65534, 65535, 0, 65536, -1, 2 ** 16 + 1):
+        for address in ('1.2.3.4', '255.0.0.255', '0.0.0.0'):
+            check_compact(ctx, bytes(range(48)), address, port)
+        if 0 <= port < 65536:
+            check_decompact(ctx, bytes([9, 8, 7, 6]) + port.to_bytes(2, 'big') + bytes(range(48)))
     for i in range(vlib.scaled(T, 600, 20000)):
         node = rbytes(rng, rng.choice([48, 48, 48, 47, 49, 0]))
         parts = [str(rng.choice([0, 1, 9, 10, 99, 100, 199, 255, 256, rng.randrange(256)])) for _ in range(rng.choice([4, 4, 4, 4, 3, 5]))]
